@@ -108,6 +108,20 @@ mut("map_fetcher_skips_zero_values", ["C11"], "NewMapVarFetcher/",
 mut("duration_rounds_to_millis", ["C11"], "unifyType/post/scalars-and-identity",
     [("variable.go", "\t\treturn int64(v / time.Second)", "\t\treturn int64(v / time.Millisecond)")])
 
+# ---- C16
+mut("reordering_sorts_eq_operands", ["C16"], "sweep/guardedcall:reordering",
+    [("compiler.go", "\tif !isBoolOpNode(root.node) {\n\t\treturn\n\t}\n\n\t// reordering child nodes based on node cost", "\tif !isBoolOpNode(root.node) && root.node.value != \"eq\" {\n\t\treturn\n\t}\n\n\t// reordering child nodes based on node cost")], "operands of eq are sorted too")
+mut("cost_if_takes_min_branch", ["C16"], "calculateNodeCosts/post/cost-formula",
+    [("compiler.go", "\t\tchildrenCost = children[0].cost + math.Max(children[1].cost, children[2].cost)", "\t\tchildrenCost = children[0].cost + math.Min(children[1].cost, children[2].cost)")])
+mut("cost_class_default_ignored_for_fast", ["C16"], "Config.getCosts/post/class-default",
+    [("compiler.go", "\tcase operator, fastOperator:\n\t\tif v, exist := cc.CostsMap[operatorNode]; exist {", "\tcase operator:\n\t\tif v, exist := cc.CostsMap[operatorNode]; exist {")])
+mut("reordering_unstable_on_ties", ["C16"], "optimizeReordering.$1/post/less-is-cost-order",
+    [("compiler.go", "\t\treturn root.children[i].cost < root.children[j].cost", "\t\treturn root.children[i].cost <= root.children[j].cost")], "ties are reversed")
+mut("cost_skips_last_operand", ["C16"], "calculateNodeCosts/",
+    [("compiler.go", "\t\tfor _, child := range children {\n\t\t\tchildrenCost += child.cost\n\t\t}", "\t\tfor _, child := range children[:len(children)/2*2] {\n\t\t\tchildrenCost += child.cost\n\t\t}")], "odd operand counts drop the last operand from the cost")
+mut("reordering_rewrites_node_flag", ["C16"], "sweep/writeset:reordering",
+    [("compiler.go", "\tcalculateNodeCosts(cc, root)\n\n\tif !isBoolOpNode(root.node) {", "\tcalculateNodeCosts(cc, root)\n\tif root.cost < 0 {\n\t\troot.children = root.children[:1]\n\t}\n\n\tif !isBoolOpNode(root.node) {")], "negative total cost truncates the operand list")
+
 def main():
     out = os.path.join(os.path.dirname(os.path.abspath(__file__)), "mutants")
     os.makedirs(out, exist_ok=True)
